@@ -3,7 +3,7 @@ import numpy as np
 
 from vmon import events
 from vmon.gen import patterns, planted, replcase
-from vmon.oracle.util import deep_diff
+from vmon.oracle.util import deep_diff, clone
 
 PROPERTY = "C04"
 RULE = ("Planted structures with non-overlapping copies (any pose, 0-3 faces crossed, all cell classes), bystanders near "
@@ -63,7 +63,7 @@ def run_case(case, ctx):
     P = patterns.to_atoms(pat)
     R = replcase.rep_to_atoms(rep)
     f = case["fraction"]
-    snaps = (S.copy(), P.copy(), R.copy())
+    snaps = (clone(S), clone(P), clone(R))
     events.SCHEDULE["sample"] = case["sample"]
     obs = replcase.observe_replace(S, P, R, case["s"], replace_fraction=f, atol=atol, replace_all=case["replace_all"], return_num_matches=True)
     w = {"case": {k: case[k] for k in ("cell", "pattern", "repl", "atol", "fraction", "replace_all", "sample")}, "n_atoms": len(S), "planted": built["planted"],
